@@ -201,6 +201,17 @@ def gen_ani(rng):
     else:
         amin, amax = rnd_range(rng, 0.05, 6.0)
     bmin, bmax = rnd_range(rng, 0.0, 1.0)
+    # a grid edge of EXACTLY zero (np.linspace(0, 1, n): isotropic at infinity is the canonical lower edge)
+    r0 = rng.random()
+    if r0 < 0.25:
+        bmin = 0.0
+    elif r0 < 0.33:
+        bmin, bmax = round(rng.uniform(-1.0, -0.2), 3), 0.0
+    if model == "const" and rng.random() < 0.2:
+        if rng.random() < 0.5:
+            amin, amax = 0.0, round(rng.uniform(0.2, 1.0), 3)
+        else:
+            amin, amax = round(rng.uniform(-1.0, -0.2), 3), 0.0
     if rng.random() < 0.12:
         amin = None
     if rng.random() < 0.12:
@@ -370,6 +381,11 @@ LENS_PAR = ["lambda_mst", "lambda_mst_sigma", "gamma_ppn", "lambda_ifu", "lambda
 def gen_lens(rng):
     gmin, gmax = rnd_range(rng, 0.1, 2.9)
     mmin, mmax = rnd_range(rng, -0.5, 1.5)
+    r0 = rng.random()
+    if r0 < 0.15:          # log10(M/L) grids that start or end exactly at 0
+        mmin, mmax = 0.0, round(rng.uniform(0.2, 1.5), 3)
+    elif r0 < 0.25:
+        mmin, mmax = round(rng.uniform(-0.5, -0.1), 3), 0.0
     if rng.random() < 0.1:
         gmin = None
     if rng.random() < 0.1:
